@@ -38,10 +38,20 @@ class Trace(object):
         raise Refused(why)
 
     def branch(self, expr, concrete):
+        if is_closed(expr):
+            return bool(concrete)        # a condition over constants is not a decision point
         k = len(self.path)
         out = self.forced[k] if k < len(self.forced) else bool(concrete)
         self.path.append((expr, out))
         return out
+
+
+def is_closed(e):
+    if isinstance(e, tuple):
+        if e and e[0] in ('arg', 'field'):
+            return False
+        return all(is_closed(x) for x in e)
+    return True
 
 
 def zexpr(x):
@@ -303,7 +313,7 @@ class SymIW(object):
         Trace.current.refuse('IntegerWrapper used as an index')
 
     def __hash__(self):
-        return hash(int(self.conc))
+        Trace.current.refuse('IntegerWrapper used as a dict key / set member')
 
     def __len__(self):
         w = static_nbits(self.expr)
